@@ -48,7 +48,9 @@ class SpecMixin:
                 c = z3.And(*delta) if delta else z3.BoolVal(True)
                 res = self.merge(st, c, v, res)
         if res is None:
-            raise SpecError("specification has no feasible evaluation (vacuous context)")
+            raise SpecError("specification has no feasible evaluation (vacuous context): "
+                            f"{text_or_ast if isinstance(text_or_ast, str) else ast.unparse(text_or_ast)}; pc feasible="
+                            f"{self.feasible(st.pc)}")
         return res
 
     def spec_bool(self, st, text, env, polarity="prove", module=None):
@@ -208,19 +210,21 @@ class SpecMixin:
         if not self.feasible(ok.pc):
             return
         # 3. normal outcome: havoc + fresh result + assume ensures
-        post = self.havoc_modifies(ok, c, env, maker)
-        rs = self.result_shape(c, f)
-        post, result = maker.make(post, rs, self.fresh(f"{c.short}.result"))
-        env2 = dict(env)
-        env2["result"] = result
-        env2["$old"] = pre
-        env2["$oldenv"] = dict(env)
-        if c.ghost_effect is not None:
-            post = c.ghost_effect(self, post, env2)
-        for label, text in c.ensures.items():
-            g = self.spec_bool(post, text, env2, "assume", c.spec_module)
-            post = post.assume(g)
-        yield post.with_loc(caller_loc), result
+        post0 = self.havoc_modifies(ok, c, env, maker)
+        from .shapes import expand_oneof
+        for rs in expand_oneof(self.result_shape(c, f)):
+            post, result = maker.make(post0, rs, self.fresh(f"{c.short}.result"))
+            env2 = dict(env)
+            env2["result"] = result
+            env2["$old"] = pre
+            env2["$oldenv"] = dict(env)
+            if c.ghost_effect is not None:
+                post = c.ghost_effect(self, post, env2)
+            for label, text in c.ensures.items():
+                g = self.spec_bool(post, text, env2, "assume", c.spec_module)
+                post = post.assume(g)
+            if self.feasible(post.pc):
+                yield post.with_loc(caller_loc), result
 
     def make_exc(self, name):
         bare = name.split(":")[-1].split(".")[-1]
